@@ -612,6 +612,7 @@ func runC06(e *Env) error {
 		c06Writers(e, pool, work)
 		if e.Atlas != "" {
 			c06CLI(e, work)
+			c06Import(e, work)
 		}
 	}
 	return nil
@@ -827,6 +828,81 @@ env "local" {
 				names, _ := filepath.Glob(filepath.Join(dir, "m", "*"))
 				e.Res.Violate("failing-input", "cli-writer-leaves-invalid-dir", fmt.Sprintf("after %v the directory %v does not validate: library: %v; `migrate validate`: exit %d %s", done, mapS(names, filepath.Base), verr, v.Code, trunc(v.Stderr+v.Stdout, 200)), "Props.C06.writers_leave_valid", map[string]any{"steps": done})
 				break
+			}
+		}
+		os.RemoveAll(dir)
+	}
+}
+
+// c06Import: `atlas migrate import` from every supported third-party layout (versions that sort differently
+// as numbers and as strings, a Flyway repeatable and baseline file, unpadded versions) must leave a
+// directory that validates (library and `migrate validate`), whose sum file lists exactly its .sql files in
+// name order.
+func c06Import(e *Env, work string) {
+	type src struct {
+		format string
+		files  map[string]string
+	}
+	up := func(t string) string { return "CREATE TABLE " + t + " (id int);\n" }
+	srcs := []src{
+		{"flyway", map[string]string{"V1__a.sql": up("a"), "V2__b.sql": up("b"), "V10__c.sql": up("c"), "V3__d.sql": up("d"), "R__views.sql": "CREATE VIEW v AS SELECT 1;\n"}},
+		{"flyway", map[string]string{"V1__a.sql": up("a"), "V2__b.sql": up("b"), "V3__c.sql": up("c"), "R__views.sql": "CREATE VIEW v AS SELECT 1;\n", "R__zz.sql": "CREATE VIEW z AS SELECT 1;\n"}},
+		{"flyway", map[string]string{"B2__base.sql": up("a") + up("b"), "V1__a.sql": up("a"), "V2__b.sql": up("b"), "V3__c.sql": up("c"), "U1__a.sql": "DROP TABLE a;\n"}},
+		{"flyway", map[string]string{"V2__b.sql": up("b"), "V10__c.sql": up("c"), "V1.5__x.sql": up("x"), "V1__a.sql": up("a")}},
+		{"golang-migrate", map[string]string{"1_a.up.sql": up("a"), "1_a.down.sql": "DROP TABLE a;\n", "2_b.up.sql": up("b"), "2_b.down.sql": "DROP TABLE b;\n", "10_c.up.sql": up("c"), "10_c.down.sql": "DROP TABLE c;\n"}},
+		{"goose", map[string]string{"1_a.sql": "-- +goose Up\n" + up("a") + "\n-- +goose Down\nDROP TABLE a;\n", "2_b.sql": "-- +goose Up\n" + up("b"), "10_c.sql": "-- +goose Up\n" + up("c")}},
+		{"dbmate", map[string]string{"1_a.sql": "-- migrate:up\n" + up("a") + "\n-- migrate:down\nDROP TABLE a;\n", "2_b.sql": "-- migrate:up\n" + up("b"), "10_c.sql": "-- migrate:up\n" + up("c")}},
+		{"liquibase", map[string]string{"1_a.sql": "--liquibase formatted sql\n\n--changeset atlas:1-1\n" + up("a") + "--rollback: DROP TABLE a;\n", "2_b.sql": "--liquibase formatted sql\n\n--changeset atlas:2-1\n" + up("b"), "10_c.sql": "--liquibase formatted sql\n\n--changeset atlas:10-1\n" + up("c")}},
+	}
+	for si, sc := range srcs {
+		dir := filepath.Join(work, fmt.Sprintf("c06imp-%d", si))
+		os.RemoveAll(dir)
+		os.MkdirAll(filepath.Join(dir, "src"), 0o755)
+		os.MkdirAll(filepath.Join(dir, "out"), 0o755)
+		var names []string
+		for n, c := range sc.files {
+			os.WriteFile(filepath.Join(dir, "src", n), []byte(c), 0o644)
+			names = append(names, n)
+		}
+		sort.Strings(names)
+		rep := map[string]any{"format": sc.format, "source_files": names}
+		o := runAtlas(e, dir, nil, "migrate", "import", "--from", "file://src?format="+sc.format, "--to", "file://out")
+		e.Res.Count(fmt.Sprintf("cli-import:%d:%s", si, sc.format), true, "cli-import", "import:"+sc.format)
+		if o.Code != 0 {
+			e.Res.Violate("failing-input", "cli-writer-fails", fmt.Sprintf("`migrate import` from a %s directory %v fails: %s", sc.format, names, trunc(o.Stderr+o.Stdout, 300)), "Props.C06.writers_leave_valid", rep)
+			os.RemoveAll(dir)
+			continue
+		}
+		ld, err := migrate.NewLocalDir(filepath.Join(dir, "out"))
+		var verr error
+		if err == nil {
+			verr = migrate.Validate(ld)
+		}
+		v := runAtlas(e, dir, nil, "migrate", "validate", "--dir", "file://out")
+		got, _ := filepath.Glob(filepath.Join(dir, "out", "*"))
+		if err != nil || verr != nil || v.Code != 0 {
+			e.Res.Violate("failing-input", "cli-writer-leaves-invalid-dir", fmt.Sprintf("after `migrate import` from the %s directory %v the new directory %v does not validate: library: %v; `migrate validate`: exit %d %s", sc.format, names, mapS(got, filepath.Base), verr, v.Code, trunc(v.Stderr+v.Stdout, 200)), "Props.C06.writers_leave_valid", rep)
+		} else {
+			// the sum file lists the .sql files in name order
+			var want []string
+			for _, g := range got {
+				if strings.HasSuffix(g, ".sql") {
+					want = append(want, filepath.Base(g))
+				}
+			}
+			sort.Strings(want)
+			var listed []string
+			if b, err := os.ReadFile(filepath.Join(dir, "out", "atlas.sum")); err == nil {
+				for i, l := range strings.Split(strings.TrimSpace(string(b)), "\n") {
+					if i > 0 {
+						if k := strings.LastIndex(l, " h1:"); k > 0 {
+							listed = append(listed, l[:k])
+						}
+					}
+				}
+			}
+			if fmt.Sprint(listed) != fmt.Sprint(want) {
+				e.Res.Violate("failing-input", "sum-file-entries-not-in-name-order", fmt.Sprintf("after `migrate import` (%s) atlas.sum lists %v, the directory holds %v", sc.format, listed, want), "Props.C06.writers_leave_valid", rep)
 			}
 		}
 		os.RemoveAll(dir)
